@@ -134,6 +134,7 @@ def config_st(draw, dmax=5, tmin=2, tmax=12, modes=('exact', 'float'), multi=Tru
         if cfg['prefill'] and cfg['stream'] and draw(st.booleans()):
             cfg['stream'][0]['upd'] = False      # the storage is fed by hand / by someone else: even the first call does not store
         cfg['defaults_container'] = draw(st.sampled_from(['dict', 'dict', 'defaultdict', 'missing']))
+        cfg['omit_defaults'] = draw(st.booleans())     # arguments equal to their documented default are omitted instead of spelled out
         if draw(st.integers(0, 7)) == 0:
             cfg['alpha'] = draw(st.sampled_from(['1/10000000000', '1/1000000']))     # very small but legal smoothing parameter
     return cfg
@@ -235,19 +236,27 @@ class Harness:
             return self.model.names
         return list(self.names)
 
+    def _kw(self, **kw):
+        """Constructor keywords.  Where the configuration says so, every argument whose value EQUALS its documented default
+        (n_inner_samples=1, dynamic_setting=True, loss_bigger_is_better=False) is left out - README-style construction: spelling a
+        default out and omitting it must give the same explainer."""
+        if self.cfg.get('omit_defaults'):
+            documented = {'n_inner_samples': 1, 'dynamic_setting': True, 'loss_bigger_is_better': False}
+            kw = {k: v for k, v in kw.items() if not (k in documented and type(v) is type(documented[k]) and v == documented[k])}
+        return kw
+
     def pfi(self):
         from ixai.explainer import IncrementalPFI
         c = self.cfg
-        return IncrementalPFI(self.model, self.loss, self.names_arg(), storage=self.storage, imputer=self.imputer,
-                              n_inner_samples=c['n_inner'], smoothing_alpha=self.alpha, dynamic_setting=c['dynamic'])
+        return IncrementalPFI(self.model, self.loss, self.names_arg(), storage=self.storage, imputer=self.imputer, smoothing_alpha=self.alpha,
+                              **self._kw(n_inner_samples=c['n_inner'], dynamic_setting=c['dynamic']))
 
     def sage(self):
         from ixai.explainer.sage import IncrementalSage
         c = self.cfg
         if c.get('library_defaults'):
             # default storage (reservoir of 100) and default imputer (marginal joint) created by the explainer itself
-            return IncrementalSage(self.model, self.loss, self.names_arg(), n_inner_samples=c['n_inner'], smoothing_alpha=self.alpha,
-                                   dynamic_setting=c['dynamic'], loss_bigger_is_better=c['lbib'])
-        return IncrementalSage(self.model, self.loss, self.names_arg(), storage=self.storage, imputer=self.imputer,
-                               n_inner_samples=c['n_inner'], smoothing_alpha=self.alpha, dynamic_setting=c['dynamic'],
-                               loss_bigger_is_better=c['lbib'])
+            return IncrementalSage(self.model, self.loss, self.names_arg(), smoothing_alpha=self.alpha,
+                                   **self._kw(n_inner_samples=c['n_inner'], dynamic_setting=c['dynamic'], loss_bigger_is_better=c['lbib']))
+        return IncrementalSage(self.model, self.loss, self.names_arg(), storage=self.storage, imputer=self.imputer, smoothing_alpha=self.alpha,
+                               **self._kw(n_inner_samples=c['n_inner'], dynamic_setting=c['dynamic'], loss_bigger_is_better=c['lbib']))
